@@ -153,7 +153,7 @@ def windows_path(r) -> tuple[bytes, str]:
         if segs[0] in (b".",):
             segs[0] = b".."
     elif shape == 4:
-        pre, t = b"\\\\" + host + r.choice([b"", b"@SSL", b"@8080", b"@SSL@443"]) + b"\\", "windows.unc.path"
+        pre, t = b"\\\\" + host + r.choice([b"", b"@SSL", b"@8080", b"@SSL@443", b"@ssl", b"@Ssl@80", b"@0", b"@65535"]) + b"\\", "windows.unc.path"
     elif shape == 5:
         pre, t = b"\\\\" + host + b"\\" + bytes([r.choice(b"Cc")]) + b"$\\", "windows.unc.path"
     elif shape == 6:
@@ -162,6 +162,8 @@ def windows_path(r) -> tuple[bytes, str]:
         pre, t = b"\\\\" + r.choice([b".", b"?"]) + b"\\UNC\\" + host + b"\\", "windows.device.path"
     elif shape == 8:
         guid = b"-".join(bytes(r.choice(HEXLOW) for _ in range(n)) for n in (8, 4, 4, 4, 12))
+        if r.random() < 0.3:
+            guid = guid.upper()
         pre, t = b"\\\\" + r.choice([b".", b"?"]) + b"\\Volume{" + guid + b"}\\", "windows.device.path"
     else:
         pre, t = b"\\\\" + r.choice([b".", b"?"]) + b"\\", "windows.device.path"
@@ -313,19 +315,30 @@ def url(r, escapes=True) -> dict:
         path = b"/" + b"/".join(segs)
         if r.random() < 0.2:
             path += b"/"
-    qk = r.choice(["none"] * 3 + ["kv", "kv", "empty", "esc", "ioc"])
+    qk = r.choice(["none"] * 3 + ["kv", "kv", "empty", "esc", "ioc", "delims"])
     if qk == "none":
         query = None
     elif qk == "kv":
         query = b"&".join(bytes(r.choice(LOWER) for _ in range(r.randint(1, 4))) + b"=" + bytes(r.choice(LOWER + DIGITS) for _ in range(r.randint(0, 6))) for _ in range(r.randint(1, 3)))
     elif qk == "ioc":
         query = b"u=" + domain(r) + b"&i=" + ipv4(r) + r.choice([b"", b"&f=" + exe_name(r)])
+    elif qk == "delims":
+        # the delimiters of the other components are ordinary characters inside a query
+        query = r.choice([b"next=/a/b?c=d", b"u=x:y@z", b"a=b?c", b"q=//x/../y", b"r=http://" + domain(r) + b"/p?x=1"])
     elif qk == "empty":
         query = b""
     else:
         query = b"q=" + esc_some(r, b"a b&c=d/e", 0.5, b"%#\xff")
-    fk = r.choice(["none"] * 3 + ["plain", "esc"])
-    frag = None if fk == "none" else (b"frag" + bytes(r.choice(DIGITS) for _ in range(2)) if fk == "plain" else esc_some(r, b"sec tion-1", 0.4))
+    fk = r.choice(["none"] * 3 + ["plain", "esc", "delims"])
+    if fk == "none":
+        frag = None
+    elif fk == "plain":
+        frag = b"frag" + bytes(r.choice(DIGITS) for _ in range(2))
+    elif fk == "delims":
+        # '?', '/', ':' and '@' after the '#' belong to the fragment (single-page application routes)
+        frag = r.choice([b"top?x=1", b"/route?tab=2", b"/a/b/../c", b"user@host:80", b"?", b"a?b#c"])
+    else:
+        frag = esc_some(r, b"sec tion-1", 0.4)
     text = scheme + b"://"
     if userinfo is not None:
         text += userinfo + b"@"
